@@ -2,7 +2,7 @@
    Statements only; every proof is [exact <lemma>]. *)
 From FMP Require Import Base.Bytes Base.Lts Model.Events Model.Skeleton Model.Props Model.Lifecycle
      Model.Generated Model.GenTypes Model.Msgpack Model.Frame Proofs.LifecycleProofs Proofs.SkeletonProofs Proofs.ClassifyProofs.
-From FMP Require Import Model.Paths Proofs.PathProofs.
+From FMP Require Import Model.Paths Proofs.PathsC07.
 From FMP Require Import Model.CodecCfg Proofs.CodecCfgProofs.
 Open Scope Z_scope.
 
